@@ -980,25 +980,6 @@ fn full_opts() -> Opts {
     Opts { faults: false, on_error: false, ..Opts::default() }
 }
 
-/// a single-line IF whose THEN part ends in a PRINT without a final expression (bare, or ending in ; or ,) directly before ELSE
-fn bare_print_before_else(text: &str) -> bool {
-    text.lines().any(|l| {
-        let w = words(l);
-        w.first().map(|x| x.1.as_str()) == Some("IF")
-            && w.iter().filter(|x| x.1 == "ELSE").any(|e| {
-                // the statement directly before ELSE
-                let before = l[..e.0].trim_end();
-                let stmt = before.rsplit(" : ").next().unwrap_or(before);
-                let stmt = match stmt.find("THEN ") {
-                    Some(k) => &stmt[k + 5..],
-                    None => stmt,
-                };
-                let sw = words(stmt);
-                sw.first().map(|x| x.1.as_str()) == Some("PRINT") && (sw.len() == 1 && stmt.trim().len() == 5 || stmt.ends_with(';') || stmt.ends_with(','))
-            })
-    })
-}
-
 fn kind_of(o: &Observed) -> String {
     o.outcome.split(' ').take(2).collect::<Vec<_>>().join(" ")
 }
@@ -1033,6 +1014,168 @@ fn top_elems(s: &str) -> Vec<String> {
     }
     if !cur.is_empty() {
         out.push(cur);
+    }
+    out
+}
+
+
+// ---------------------------------------------------------------------------------------------
+// directed family: a block construct inside a FUNCTION / SUB, each of its blocks in turn holding a way
+// out (EXIT FUNCTION / EXIT SUB, GOTO to a label after the construct), the procedure called in an
+// operand position with a pending left operand, for argument values that select each block.
+// (EXIT FOR / EXIT DO are not in the language of this parser.)
+
+const D_KINDS: usize = 11;
+const D_WAYS: usize = 2;
+const D_BLOCKS: usize = 3;
+const D_PROCS: usize = 2;
+const D_WRAPS: usize = 5;
+
+fn directed_program(kind: usize, way: usize, blk: usize, proc_: usize, wrap: usize) -> String {
+    let is_fn = proc_ == 0;
+    let w = if way == 0 { if is_fn { "EXIT FUNCTION".to_owned() } else { "EXIT SUB".to_owned() } } else { "GOTO Lb9".to_owned() };
+    let act = |k: &str| if is_fn { format!("F% = F% + {}", k) } else { format!("PRINT {};", k) };
+    let mut c: Vec<String> = vec![];
+    match kind {
+        0 | 1 => {
+            c.push("SELECT CASE X%".into());
+            let items: [&str; 2] = if kind == 0 { ["1", "2"] } else { ["IS < 1", "1 TO 1, 2"] };
+            for (i, it) in items.iter().enumerate() {
+                c.push(format!("CASE {}", it));
+                c.push(format!("  {}", act(&format!("{}", 10 * (i + 1)))));
+                if blk == i {
+                    c.push(format!("  {}", w));
+                }
+            }
+            c.push("CASE ELSE".into());
+            c.push(format!("  {}", act("30")));
+            if blk == 2 {
+                c.push(format!("  {}", w));
+            }
+            c.push("END SELECT".into());
+        }
+        2 => {
+            let heads = ["IF X% = 1 THEN", "ELSEIF X% = 2 THEN", "ELSE"];
+            for (i, h) in heads.iter().enumerate() {
+                c.push((*h).into());
+                c.push(format!("  {}", act(&format!("{}", 10 * (i + 1)))));
+                if blk == i {
+                    c.push(format!("  {}", w));
+                }
+            }
+            c.push("END IF".into());
+        }
+        _ => {
+            // loops: three rounds, the way out is taken in round X%
+            let (head, tail): (Vec<String>, String) = match kind {
+                3 => (vec!["FOR I% = 1 TO 3".into()], "NEXT".into()),
+                4 => (vec!["FOR I% = 3 TO 1 STEP -1".into()], "NEXT".into()),
+                5 => (vec!["S% = 1".into(), "FOR I% = 1 TO 3 STEP S%".into()], "NEXT".into()),
+                6 => (vec!["I% = 0".into(), "WHILE I% < 3".into(), "  I% = I% + 1".into()], "WEND".into()),
+                7 => (vec!["I% = 0".into(), "DO WHILE I% < 3".into(), "  I% = I% + 1".into()], "LOOP".into()),
+                8 => (vec!["I% = 0".into(), "DO UNTIL I% >= 3".into(), "  I% = I% + 1".into()], "LOOP".into()),
+                9 => (vec!["I% = 0".into(), "DO".into(), "  I% = I% + 1".into()], "LOOP WHILE I% < 3".into()),
+                _ => (vec!["I% = 0".into(), "DO".into(), "  I% = I% + 1".into()], "LOOP UNTIL I% >= 3".into()),
+            };
+            c.extend(head);
+            c.push(format!("  {}", act("I%")));
+            match blk {
+                0 => {
+                    c.push("  IF I% = X% THEN".into());
+                    c.push(format!("    {}", w));
+                    c.push("  END IF".into());
+                }
+                1 => c.push(format!("  IF I% = X% THEN {}", w)),
+                _ => {
+                    c.push("  SELECT CASE I%".into());
+                    c.push("  CASE IS <> X%".into());
+                    c.push(format!("    {}", act("1")));
+                    c.push("  CASE ELSE".into());
+                    c.push(format!("    {}", w));
+                    c.push("  END SELECT".into());
+                }
+            }
+            c.push(tail);
+        }
+    }
+    let (open, close): (Vec<&str>, Vec<&str>) = match wrap {
+        0 => (vec![], vec![]),
+        1 => (vec!["FOR J% = 1 TO 2"], vec!["NEXT"]),
+        2 => (vec!["SELECT CASE 9", "CASE 1", "CASE ELSE"], vec!["END SELECT"]),
+        3 => (vec!["IF X% < -5 THEN", "ELSE"], vec!["END IF"]),
+        _ => (vec!["K% = 0", "DO", "  K% = K% + 1"], vec!["LOOP UNTIL K% >= 2"]),
+    };
+    let mut body: Vec<String> = vec![];
+    if is_fn {
+        body.push("F% = 1".into());
+    }
+    body.extend(open.iter().map(|l| (*l).to_owned()));
+    body.extend(c.into_iter().map(|l| if wrap == 0 { l } else { format!("  {}", l) }));
+    body.extend(close.iter().map(|l| (*l).to_owned()));
+    body.push(act("5"));
+    body.push("Lb9:".into());
+    body.push(act("100"));
+    let mut out: Vec<String> = vec![];
+    if is_fn {
+        out.push("DECLARE FUNCTION F% (X%)".into());
+    } else {
+        out.push("DECLARE SUB P (X%)".into());
+        out.push("DECLARE FUNCTION G% (X%)".into());
+    }
+    let f = if is_fn { "F%" } else { "G%" };
+    out.push("FOR N% = 0 TO 3".into());
+    out.push(format!("  PRINT 100 + {}(N%)", f));
+    out.push(format!("  A% = 7 * {}(N%) + 1", f));
+    out.push("  PRINT A%".into());
+    out.push("NEXT".into());
+    out.push("PRINT \"done\"".into());
+    if is_fn {
+        out.push("FUNCTION F% (X%)".into());
+        out.extend(body.into_iter().map(|l| format!("  {}", l)));
+        out.push("END FUNCTION".into());
+    } else {
+        out.push("FUNCTION G% (X%)".into());
+        out.push("  P X%".into());
+        out.push("  G% = X% + 1".into());
+        out.push("END FUNCTION".into());
+        out.push("SUB P (X%)".into());
+        out.extend(body.into_iter().map(|l| format!("  {}", l)));
+        out.push("END SUB".into());
+    }
+    out.join("\n") + "\n"
+}
+
+/// quick: every (construct, way out, block) in a FUNCTION without wrapper + a random sample of the rest;
+/// thorough: the whole cross product
+fn directed_programs(rng: &mut Rng, thorough: bool) -> Vec<Prog> {
+    let mut out = vec![];
+    let mut push = |k, w, b, p, r| out.push(Prog { text: directed_program(k, w, b, p, r), origin: "directed", core: false });
+    if thorough {
+        for k in 0..D_KINDS {
+            for w in 0..D_WAYS {
+                for b in 0..D_BLOCKS {
+                    for p in 0..D_PROCS {
+                        for r in 0..D_WRAPS {
+                            push(k, w, b, p, r);
+                        }
+                    }
+                }
+            }
+        }
+    } else {
+        for k in 0..D_KINDS {
+            for w in 0..D_WAYS {
+                for b in 0..D_BLOCKS {
+                    push(k, w, b, 0, 0);
+                }
+            }
+        }
+        for _ in 0..36 {
+            let (k, w, b) = (rng.below(D_KINDS as u64) as usize, rng.below(D_WAYS as u64) as usize, rng.below(D_BLOCKS as u64) as usize);
+            let p = rng.below(D_PROCS as u64) as usize;
+            let r = if p == 0 { 1 + rng.below(D_WRAPS as u64 - 1) as usize } else { rng.below(D_WRAPS as u64) as usize };
+            push(k, w, b, p, r);
+        }
     }
     out
 }
@@ -1178,8 +1321,12 @@ fn main() {
         "C02",
         "every accepted program (type-directed random core programs: IF/ELSEIF/ELSE, SELECT CASE with simple/IS/range lists, FOR with no / \
          constant positive / constant negative / run-time computed STEP, WHILE, DO top/bottom WHILE/UNTIL, nesting <= 3, a third with an \
-         injected run-time fault; random programs with SUB/FUNCTION, GOSUB and GOTO out of loops; every program text of the repository's \
-         tests and fixtures the block segmenter handles) x every rewrite site x every rule (while-do, until-not, for-step1, wrap-loop, \
+         injected run-time fault; random programs with SUB/FUNCTION, GOSUB and GOTO out of loops; a directed family: each block construct \
+         (SELECT CASE with simple / IS / range / multi-item lists, IF/ELSEIF/ELSE, FOR without / negative / computed STEP, WHILE, the four \
+         DO forms) inside a FUNCTION or a SUB, optionally wrapped in FOR / CASE ELSE / ELSE / DO, each of its blocks in turn holding EXIT \
+         FUNCTION / EXIT SUB or a GOTO past the construct, the procedure called with a pending left operand (PRINT 100 + F%(N%), A% = 7 * \
+         F%(N%) + 1) for arguments selecting every block; every program text of the repository's tests and fixtures the block segmenter \
+         handles) x every rewrite site x every rule (while-do, until-not, for-step1, wrap-loop, \
          select-if, for-while, if-single-line, if-block): the rewritten text is accepted by the real front end and runs to the same \
          stdout bytes and outcome kind (error code) as the original; for core programs the Lean model's rewrite at the same site is run \
          on RbModel.Ref and both model runs are compared with both real runs. class = (rule, rule detail, enclosing construct, outcome \
@@ -1187,7 +1334,7 @@ fn main() {
     );
     let thorough = rep.is_thorough();
     let pair_budget: usize =
-        if thorough { 60_000 } else { std::env::var("C02_PAIRS").ok().and_then(|x| x.parse().ok()).unwrap_or(4_000) };
+        if thorough { 60_000 } else { std::env::var("C02_PAIRS").ok().and_then(|x| x.parse().ok()).unwrap_or(4_400) };
     let n_core = if thorough { 2_800 } else { 210 };
     let n_full = if thorough { 950 } else { 70 };
 
@@ -1211,6 +1358,10 @@ fn main() {
         progs.push(Prog { text: t, origin: "corpus", core: true });
     }
     rep.bump_by("corpus.accepted-programs", progs.len() as u64);
+    // the directed family comes right after the corpus, so that a pair budget never cuts it
+    let directed = directed_programs(&mut rng, thorough);
+    rep.bump_by("directed.programs", directed.len() as u64);
+    progs.extend(directed);
     let mut gens: Vec<Prog> = vec![];
     for k in 0..n_core {
         let (text, _) = generate(&mut rng, &core_opts(k % 3 == 0));
@@ -1277,11 +1428,7 @@ fn main() {
                         rep.case(Some(format!("{}|{}|{}|rejected|{}", site.rule.name(), site.detail, site.within, p.origin)));
                         rep.fail(Failure {
                             kind: Kind::ImplVsProperty,
-                            signature: format!(
-                                "rewritten-rejected:{}{}",
-                                site.rule.name(),
-                                if bare_print_before_else(&new_text) { ":print-without-final-expression-before-else" } else { "" }
-                            ),
+                            signature: format!("rewritten-rejected:{}", site.rule.name()),
                             input: new_text.clone(),
                             implementation: "the front end rejects the respelled program".into(),
                             expected: format!("accepted like the original:\n{}", pr.re),
